@@ -10,6 +10,8 @@ import NanoVerif.Model.Bundle
     :61-69   n-D deep-cut update                                           -> `alphaCut`, `stepX`, `stepH`
     :71-72   f = vgrad(x, g); state.update_if_better(x, g, f)             -> `better` (src/solver/state.cpp:57-69)
     :75      converged = std::sqrt(gHg) < epsilon   (gHg of the point that was just left) -> `converged`
+    :28-37, :43-80  the whole n-D loop (start, early exit, update, evaluation, `update_if_better`, `solver_t::done`)
+                                                                         -> `startND`, `iterND`, `runND`, `doneE`, `fuelOf`
 
   NB (1-D): the branch is commented "becomes bisection", but the centre moves by the FULL `H` and the half-width is halved,
   so the interval that is really maintained around `x_k` is `[x_k - 2 H_k, x_k + 2 H_k]` (`x_{k+1} ± 2 H_{k+1} =
@@ -107,5 +109,66 @@ def start1d (R x0 : α) (oracle : α → α × α) : S1 α :=
   let fg := oracle x0
   ⟨x0, R, fg.1, fg.2, fg.1⟩
 
+/-! ### the n-D loop as a whole (ellipsoid.cpp:28-82 for `function.size() >= 2`) -/
+
+/-- `solver_status` as far as this loop sets it (`max_iters` is the value-initialised status that stays when the budget
+    runs out) -/
+inductive EStatus where
+  | maxIters | converged | failed
+deriving DecidableEq, Repr
+
+def EStatus.toNat : EStatus → Nat
+  | .maxIters => 0 | .converged => 1 | .failed => 2
+
+/-- loop-carried variables: centre `x`, shape `H`, `f`, `g` at `x`; `best` / `bx` = `state.fx()` / `state.x()` (the state
+    that is returned) -/
+structure SN (α : Type) where
+  x : List α
+  H : List (List α)
+  f : α
+  g : List α
+  best : α
+  bx : List α
+
+/-- `solver_t::done(state, iter_ok, converged)` (src/solver.cpp:119-138): `some status` = it returned true (the loop
+    breaks with that status), `none` = go on. NB `converged` wins over `!iter_ok`. -/
+def doneE (iterOk conv valid : Bool) : Option EStatus :=
+  if conv || !(iterOk && valid) then some (if conv then .converged else .failed) else none
+
+/-- `state.update_if_better(x, g, f)` (src/solver/state.cpp:57-83): only a finite, strictly smaller value replaces the best -/
+def betterF (fin : α → Bool) (best f : α) : α := if fin f then better best f else best
+
+/-- one pass of the loop (ellipsoid.cpp:45-79). `oracle x = (f x, g x)` is `function.vgrad`, `fin` is `std::isfinite`,
+    `valid` is `state.valid()` -/
+def iterND (dim : Nat) (eps epsM : α) (fin : α → Bool) (valid : SN α → Bool) (oracle : List α → α × List α) (s : SN α) :
+    Option EStatus × SN α :=
+  let gHg := quad s.H s.g
+  if gHg < epsM then (doneE true true (valid s), s)
+  else
+    let xh := stepND dim s.x s.g s.H s.f s.best
+    let fg := oracle xh.1
+    let s' : SN α := ⟨xh.1, xh.2, fg.1, fg.2, betterF fin s.best fg.1,
+      if fin fg.1 && decide (0 < s.best - fg.1) then xh.1 else s.bx⟩
+    (doneE (fin fg.1) (converged eps gHg) (valid s'), s')
+
+/-- at most `fuel` passes; the status stays `max_iters` when the budget is used up -/
+def runND (dim : Nat) (eps epsM : α) (fin : α → Bool) (valid : SN α → Bool) (oracle : List α → α × List α) :
+    Nat → SN α → EStatus × SN α
+  | 0, s => (.maxIters, s)
+  | k + 1, s =>
+    match iterND dim eps epsM fin valid oracle s with
+    | (some st, s') => (st, s')
+    | (none, s') => runND dim eps epsM fin valid oracle k s'
+
+/-- ellipsoid.cpp:28-37 -/
+def startND (dim : Nat) (R : α) (x0 : List α) (oracle : List α → α × List α) : SN α :=
+  let fg := oracle x0
+  ⟨x0, initH dim R, fg.1, fg.2, fg.1, x0⟩
+
 end
+
+/-- the number of passes `while (fcalls + gcalls < max_evals)` allows: the constructor of the state and every pass
+    evaluate `vgrad` once (one `fcall` and one `gcall` each), so pass `k` (from 0) runs iff `2 (k + 1) < max_evals` -/
+def fuelOf (maxEvals : Nat) : Nat := (maxEvals - 1) / 2
+
 end NanoVerif.Ellipsoid
